@@ -205,10 +205,12 @@ impl C2sListener {
       "stopped accepting socket connections"
     );
 
+    // Wait for the connection manager to stop: every connection is notified and closed while its worker is still
+    // running.
+    self.conn_mng.shutdown().await?;
+
     self.worker_pool.take();
 
-    // Wait for the connection manager to stop.
-    self.conn_mng.shutdown().await?;
     self.dispatcher_factory.shutdown().await?;
 
     Ok(())
